@@ -113,6 +113,18 @@ structure AFTOperation where
   Id : Nat
   ElectionId : Option U128
   Op : Nat
+  /-- everything else the message carries (network instance, entry): never looked at -/
+  Body : Nat := 0
+  deriving DecidableEq, Repr, Inhabited
+
+/-- `spb.ModifyRequest` as the fluent client builds it -/
+structure ModifyRequestF where
+  Operation : List AFTOperation
+  deriving DecidableEq, Repr, Inhabited
+
+/-- `fluent.gRIBIConnection` as `entriesToModifyRequest` looks at it -/
+structure GRIBIConnection where
+  redundMode : Nat
   deriving DecidableEq, Repr, Inhabited
 
 def AFTOperation_INVALID : Nat := 0
